@@ -132,11 +132,11 @@ func addDecimals(receiver object.Object, objType object.ObjectType, args ...obje
 		decimals = int(decimalArg.Value)
 	}
 
-	zeros := strings.Repeat("0", decimals)
-
-	if decimals == 0 {
+	if decimals <= 0 {
 		return &object.Str{Value: val}, nil
 	}
+
+	zeros := strings.Repeat("0", decimals)
 
 	return &object.Str{Value: val + separator + zeros}, nil
 }
